@@ -157,7 +157,10 @@ func runC01(c *core.Ctx) {
 		tab := an.Table{Atoms: atoms, Outcome: outcome,
 			Expect: func(a map[string]bool) string {
 				if a["iderr"] {
-					return "→err"
+					// F134: an ID that cannot be rendered for this point's tags is the error of this point: nothing is recorded
+					// or sent for it, and the task goes on (the statement says nothing of such a point; C05 forbids ending the
+					// task on it). Returning the error — what the table required before — ended the node.
+					return "→nil"
 				}
 				if batch && a["empty"] {
 					return "→nil"
